@@ -229,6 +229,7 @@ static long ptr_id(void* p)
 }
 
 static bool g_logger_check_parks = false;
+static bool g_notify_parks = false;      // `notifypark on`: the backend parks inside the error notifier when it reports dropped messages
 static thread_local int tl_imm = 0;     // 1: inside an immediate-flush log call, 2: its internal flush has started
 // ------------------------------------------------------------------ hooks
 extern "C" void quill_verif_point(int id, void const* p)
@@ -314,6 +315,7 @@ static std::set<long> getset(std::map<std::string, std::string> const& m, char c
   return s;
 }
 
+static bool g_notify_pending = false;
 static void classify_notify(std::string const& msg)
 {
   Ev e{"Notify"};
@@ -338,6 +340,8 @@ static void classify_notify(std::string const& msg)
   e.s("cls", cls).i("n", n).s("text", msg.substr(0, 80));
   if (auto p = msg.find("from thread "); p != std::string::npos) e.s("tid", msg.substr(p + 12));
   else if (auto q = msg.find("on thread "); q != std::string::npos) e.s("tid", msg.substr(q + 10));
+  // user code runs here, in the middle of whatever the backend is doing: a yield point when the script asks for it
+  if (g_notify_parks && vs::tl_self == &g_backend && std::strcmp(cls, "dropped") == 0) g_notify_pending = true;
 }
 
 static quill::detail::ThreadContext* my_ctx() { return quill::detail::LoggerBase::thread_context; }
@@ -613,7 +617,11 @@ static int run_script(std::istream& in)
     backend_started = true;
     g_backend.name = "B";
     g_backend.th = std::thread([] { vs::worker_main(&g_backend); });
-    g_bopts.error_notifier = [](std::string const& m) { classify_notify(m); };
+    g_bopts.error_notifier = [](std::string const& m)
+    {
+      classify_notify(m);
+      if (g_notify_pending) { g_notify_pending = false; vs::park("NOTIFY"); }
+    };
     g_bopts.check_backend_singleton_instance = false;
     vs::drive(&g_backend, [] {
       g_mbw = quill::Backend::acquire_manual_backend_worker();
@@ -768,6 +776,10 @@ static int run_script(std::istream& in)
       catch (std::exception const&) { threw = true; }
       Ev e{"AddFilter"};
       e.s("s", tok[1]).s("f", tok[2]).s("deny", denys).b("all", geti(a, "all", 0) != 0).b("threw", threw);
+    }
+    else if (c == "notifypark")
+    {
+      g_notify_parks = tok.size() > 1 && tok[1] == "on";
     }
     else if (c == "tick")
     {
